@@ -2,7 +2,9 @@ package checks
 
 import (
 	"bytes"
+	"encoding/json"
 	"fmt"
+	"sort"
 	"time"
 
 	"github.com/pokt-network/pocket-core/store/rootmulti"
@@ -215,12 +217,55 @@ func init() {
 		},
 		Replay: msReplay(c08Specs),
 	})
+	// application level: Context.PrevCtx(h) for every executed height h, from the final state of every explored
+	// history, must show exactly the store content that was committed at h
+	chainInvariants["prevctx"] = func(r *replica, res *JobResult) {
+		ctx := r.ctxNow()
+		var hs []int64
+		for h := range r.digests {
+			hs = append(hs, h)
+		}
+		sort.Slice(hs, func(i, j int) bool { return hs[i] < hs[j] })
+		for _, h := range hs {
+			pctx, err := ctx.PrevCtx(h)
+			if err != nil {
+				res.viol("prevctx/error", fmt.Sprintf("PrevCtx(%d) at height %d: %v", h, r.height, err))
+				continue
+			}
+			if got := r.storeDigest(pctx.MultiStore()); got != r.digests[h] {
+				res.viol("prevctx/content-differs-from-committed-height", fmt.Sprintf("at height %d the context PrevCtx(%d) shows store content with digest %s; the content committed at height %d had digest %s", r.height, h, got, h, r.digests[h]))
+			}
+			if h != r.height && !pctx.IsPrevCtx() {
+				res.viol("prevctx/not-flagged-historical", fmt.Sprintf("at height %d the context PrevCtx(%d) is not flagged as historical", r.height, h))
+			}
+		}
+	}
 	register(&Check{ID: "C09", QuickBud: 100 * time.Second, ThorBud: 30 * time.Minute,
 		Run: func(c *ev.Ctx) {
-			c.Rule = "BFS over all sequences of set/delete/commit/open-historical-view (LoadLazyVersion as Context.PrevCtx and ABCI queries use it; CacheMultiStoreWithVersion) on a real rootmulti.Store (IAVL node cache size 1 and default; block writes through a cache multistore and, in a third configuration, directly into the live stores as this application's deliver state does); at every state every open view (however old, whatever was written or committed since, whichever other views were opened) is read completely (Get/Has/all ranges both directions, direct and cache-wrapped) and compared with the map committed at its height; store queries at every retained height likewise. Non-trivial = history with a commit"
+			c.Rule = "BFS over all sequences of set/delete/commit/open-historical-view (LoadLazyVersion as Context.PrevCtx and ABCI queries use it; CacheMultiStoreWithVersion) on a real rootmulti.Store (IAVL node cache size 1 and default; block writes through a cache multistore and, in a third configuration, directly into the live stores as this application's deliver state does); at every state every open view (however old, whatever was written or committed since, whichever other views were opened) is read completely (Get/Has/all ranges both directions, direct and cache-wrapped) and compared with the map committed at its height; store queries at every retained height likewise; on the real application, BFS over blocks (sends, claims for the running and the previous session, edit-stake, dispatch calls before and after a block) with Context.PrevCtx(h) for every executed height compared with the content committed at h. Non-trivial = history with a commit"
 			msRunSpecs(c, c09Specs(c.Tier))
+			// application level (Context.PrevCtx with its height-keyed context cache)
+			env := claimsEnv()
+			menu := []BlockSpec{{}, blk(tx("send", "A1", "to", "A2", "amount", "3")), blk(tx("claim", "N1", "session", "cur")), blk(tx("claim", "N1", "session", "cur-1")),
+				blk(tx("node_stake", "N2", "node", "N2", "value", "3000000", "output", "N2", "chains", "0001+0002")), {OffChain: []Probe{{Kind: "dispatch", Args: map[string]string{"app": "P1", "chain": "0001"}}}},
+				{PostChain: []Probe{{Kind: "dispatch", Args: map[string]string{"app": "P1", "chain": "0001"}}}}}
+			depth := 4
+			if c.Tier == "thorough" {
+				depth = 5
+			}
+			cfg := &chainCfg{Name: "prevctx", Env: env, Menu: menu, Depth: depth, Want: []string{"prevctx"}}
+			st := chainExplore(c, cfg)
+			c.BoundDone += chainDone(c, cfg, st)
+			getPool().Close()
 		},
-		Replay: msReplay(c09Specs),
+		Replay: func(raw json.RawMessage) (string, error) {
+			var probe map[string]json.RawMessage
+			_ = json.Unmarshal(raw, &probe)
+			if _, ok := probe["blocks"]; ok {
+				return chainReplayFn(raw)
+			}
+			return msReplay(c09Specs)(raw)
+		},
 	})
 }
 
